@@ -71,7 +71,7 @@ Proof.
   induction s as [|ch r IH]; intros x0 x1 x2 x3 n acc Hn.
   - assert (C : n = 0 \/ n = 1 \/ n = 2 \/ n = 3 \/ n = 240) by lia.
     destruct C as [-> | [-> | [-> | [-> | ->]]]]; cbn; rewrite ?app_nil_r; auto.
-  - cbn [map c64_run c64_process_symbol b64_decode_from].
+  - cbn [map c64_run c64_process_symbol]. rewrite dfc64.
     destruct Hn as [Hn| ->].
     2:{ cbn. exact I. }
     assert (C : n = 0 \/ n = 1 \/ n = 2 \/ n = 3) by lia.
@@ -101,7 +101,7 @@ Qed.
 Theorem b64_converter_agrees chunks :
   same_result (b64_convert chunks) (b64_decode (concat chunks)).
 Proof.
-  unfold b64_convert. rewrite c64_run_syms_only, syms_only_tokens.
+  unfold b64_convert. rewrite c64_run_syms_only, syms_only_tokens, b64_decode_is_cur.
   apply (sim64 (concat chunks) 0 0 0 0 0 []). lia.
 Qed.
 
